@@ -34,16 +34,19 @@ oracle    : a violation is raised only from the real objects: outcome class
 from __future__ import annotations
 
 import concurrent.futures
+import itertools
 import json
 import math
+import os
 import random
 import re
+import time
 import warnings
 from fractions import Fraction
 
 import numpy as np
 
-from harness import data, tlc
+from harness import data, tlaval, tlc
 from harness.core import Ctx
 from harness.tlaval import to_tla
 from harness.yawenv import scratch
@@ -67,6 +70,8 @@ DEVIATIONS = {
     "ForwardRefIsinstance": ("Validation", "outcome", dict(cosmos=["custom"]), dict()),
     "ComovingZeroZmin": ("Validation", "outcome", dict(methods=["comoving"], zpairs=[(0, 100)]), dict()),
     "ModifyEdgesNoneIsCustom": ("ModifyEqualsCreate", "outcome", dict(), dict(edges=[()])),
+    "ComovingCustomFloats": ("Validation", "binning_step", dict(methods=["comoving"], cosmos=["custom"]), dict()),
+    "InexactEndPoints": ("Validation", "end_points", dict(methods=["comoving"]), dict()),
 }
 
 # ---------------------------------------------------------------------------
@@ -139,10 +144,15 @@ def slices(quick: bool) -> list[dict]:
         cosmo=["WMAP9", "Planck15", "none", "s:WMAP9", "s:Planck15", "s:Bogus", "custom", "anon", "badtype"], workers=[4, NONE],
     )
     out = [
-        make_slice("create-binning", dict(
-            zpairs=[(10, 100), (0, 300), (50, 50), (100, 50), (NONE, NONE), (10, NONE)], numbins=[1, 3, 30, 0] if not quick else [1, 3, 0],
-            methods=["linear", "comoving", "logspace", "custom", "bogus"], edges=[(), E1, E2, EBAD[0], EBAD[1], (30,)],
-            closeds=["right", "left"])),
+        make_slice("create-generated", dict(
+            zpairs=[(10, 100), (0, 300), (50, 50), (100, 50), (NONE, NONE), (10, NONE), (NONE, 100)] + ([] if quick else [(1, 150), (20, 21)]),
+            numbins=[1, 3, 0] if quick else [1, 2, 3, 30, 0],
+            methods=["linear", "comoving", "logspace", "custom", "bogus"], closeds=["right", "left"])),
+        make_slice("create-custom", dict(
+            zpairs=[(NONE, NONE), (10, NONE)], edges=[(), E1, E2, EBAD[0], EBAD[1], (30,)] + ([] if quick else [(0, 1), (10, 30, 20)]),
+            methods=["linear", "comoving", "custom", "bogus"], closeds=["right", "left"])),
+        make_slice("create-both", dict(
+            zpairs=[(10, 100), (100, 50)], edges=[E1, EBAD[0]], methods=["linear", "comoving", "bogus"])),
         make_slice("create-cosmology", dict(
             units=["kpc", "Mpc/h"], methods=["linear", "comoving", "logspace"], edges=[(), E1], cosmos=COSMOS, workers=[NONE, 2],
             zpairs=[(10, 100), (NONE, NONE)], numbins=[1, 3, 30])),
@@ -191,30 +201,23 @@ def deviation_slice() -> dict:
 # parsing of TLC's case lines
 # ---------------------------------------------------------------------------
 
-_CASE_START = re.compile(r'^<< "case",', re.M)
+_CASE_LINE = re.compile(r'^"(<<\\"case\\",.*>>)"$', re.M)
 
 
 def _tup(x):
     return tuple(_tup(y) for y in x) if isinstance(x, list) else x
 
 
+def case_texts(out: str) -> list[str]:
+    """TLC prints every case as ONE line (a TLA+ string: ToString(CaseLine)),
+    because the lines of different TLC workers may interleave."""
+    return [m.group(1).replace('\\"', '"') for m in _CASE_LINE.finditer(out)]
+
+
 def parse_cases(out: str) -> list:
     """Fast path: the compact case lines contain only tuples, strings and
     integers, so '<<' '>>' -> '[' ']' makes them JSON."""
-    starts = [m.start() for m in _CASE_START.finditer(out)]
-    cases = []
-    for s in starts:
-        e = s
-        while True:  # the value = first line + the following indented lines
-            nl = out.find("\n", e)
-            if nl < 0:
-                e = len(out)
-                break
-            e = nl + 1
-            if e >= len(out) or out[e] not in " \t":
-                break
-        cases.append(_tup(json.loads(out[s:e].replace("<<", "[").replace(">>", "]"))))
-    return cases
+    return [_tup(json.loads(t.replace("<<", "[").replace(">>", "]"))) for t in case_texts(out)]
 
 
 class Case:
@@ -391,7 +394,10 @@ class World:
                     if np.max(np.abs(edges - self.comoving_edges(c, zmin / 100, zmax / 100, nb))) < 1e-6:
                         gen = c
                         break
-        return (method, nb, zmin, zmax, etoks, str(bc.closed), gen)
+        inexact = 0
+        if method != "custom" and zmin != "?" and zmax != "?":
+            inexact = int(float(edges[0]) != zmin / 100 or float(edges[-1]) != zmax / 100)
+        return (method, nb, zmin, zmax, etoks, str(bc.closed), gen, inexact)
 
     def proj_config(self, cfg, prefer_gen="-", taint=0.0) -> tuple:
         return self.proj_scales(cfg.scales) + self.proj_binning(cfg.binning, prefer_gen, taint) + (
@@ -469,9 +475,20 @@ def pyrepr(kw: dict) -> str:
 # ---------------------------------------------------------------------------
 
 OBJ_FIELDS = ["rmin", "rmax", "unit", "rweight", "resolution", "method", "num_bins", "zmin", "zmax", "edges", "closed",
-              "comoving_edges_cosmology", "cosmology", "max_workers"]
+              "comoving_edges_cosmology", "end_points_inexact", "cosmology", "max_workers"]
 SCALE_FIELDS = set(OBJ_FIELDS[:5])
-BIN_FIELDS = set(OBJ_FIELDS[5:12])
+BIN_FIELDS = set(OBJ_FIELDS[5:13])
+I_FUZZ, I_COSMO, I_WORKERS = 12, 13, 14
+
+
+def same_obj(a: tuple, b: tuple) -> bool:
+    """equality of abstract objects up to the end-point flag (reported on its
+    own, it must not hide or prune anything else)"""
+    return len(a) == len(b) and a[:I_FUZZ] == b[:I_FUZZ] and a[I_FUZZ + 1:] == b[I_FUZZ + 1:]
+
+
+def same_binning(a: tuple, b: tuple) -> bool:
+    return a[:7] == b[:7]
 
 
 def cosmo_class(tok: str) -> str:
@@ -489,12 +506,15 @@ def resolved_default(tok: str) -> str:
 class Replayer:
     def __init__(self, ctx: Ctx, world: World, quick: bool) -> None:
         self.ctx, self.w, self.quick = ctx, world, quick
+        self.poisoned: set = set()
+        self.by_key: dict = {}    # history -> case
+        self.symptoms: dict = {}  # history -> {"entry|outcome"} reported for it
         self.passed: list[Case] = []  # accepted cases whose real result matched (for the binding demonstration)
         self.stats = dict(cases=0, skipped_below_divergence=0, open_cases=0, accept=0, reject=0, comoving=0, substeps=0,
                           angles=0, eq=0, roundtrips=0, files=0, end_point_error=dict(logspace=0.0, comoving=0.0))
 
     # ---- classes for the structural keys -----------------------------------
-    def binning_class(self, case: Case, parent_obj, to_obj) -> str:
+    def binning_class(self, case: Case, parent_obj, to_obj, cosmo=True) -> str:
         """coarse input class of a binning problem: target kind of bins (custom
         bins kept / replaced), explicit edges=None, and - for comoving targets -
         where the cosmology comes from."""
@@ -502,7 +522,7 @@ class Replayer:
             q = dict(zip(PFIELDS, case.p0))
             kind = "custom" if (q["edges"] and (q["zmin"] == NONE or q["zmax"] == NONE)) else q["method"]
             s = f"binning={kind}"
-            if kind == "comoving":
+            if kind == "comoving" and cosmo:
                 if q["zmin"] == 0:
                     s += ",zmin=0"
                 if q["cosmo"] == "custom":
@@ -510,29 +530,61 @@ class Replayer:
             return s
         frm = parent_obj[5] if parent_obj else "?"
         d = dict(case.mods[-1])
-        if "edges" in d and not d["edges"]:
-            return "edges=None"
         to = to_obj[5] if to_obj else (d.get("method", "custom" if d.get("edges") else frm))
         if frm == "custom":
             kept = "edges" not in d and not any(k in d for k in ("zmin", "zmax", "nb", "method"))
             s = "binning=custom(kept)" if kept else f"binning=custom->{to}"
         else:
             s = f"binning={to}"
-        if to == "comoving":
+        if to == "comoving" and cosmo:
             if "cosmo" in d:
                 s += f",cosmology=->{cosmo_class(d['cosmo'])}"
             else:
-                cur = parent_obj[12] if parent_obj else "?"
+                cur = parent_obj[I_COSMO] if parent_obj else "?"
                 s += f",cosmology=kept({'custom' if cur == 'custom' else resolved_default(cur)})"
+        if "edges" in d and not d["edges"]:
+            s += ",edges=None"
         return s
 
     def scales_class(self, case: Case, parent_obj) -> str:
+        """the class of a scales problem is the (in)validity class of the scales
+        the operation asks for: valid / unknown_unit / length_mismatch / rmin>=rmax"""
         if case.op == "create":
             q = dict(zip(PFIELDS, case.p0))
-            return f"unit={q['unit']},nscales={min(len(q['rmin']), 2)}"
-        d = dict(case.mods[-1])
-        keys = [k for k in ("rmin", "rmax", "unit", "rw", "res") if k in d]
-        return f"delta={'+'.join(keys) or '-'}"
+        else:
+            d = dict(case.mods[-1])
+            q = dict(rmin=d.get("rmin", parent_obj[0] if parent_obj else ()), rmax=d.get("rmax", parent_obj[1] if parent_obj else ()),
+                     unit=d.get("unit", parent_obj[2] if parent_obj else "kpc"))
+        if q["unit"] not in UNITS:
+            return "scales=unknown_unit"
+        if len(q["rmin"]) != len(q["rmax"]):
+            return "scales=length_mismatch"
+        if any(a >= b for a, b in zip(q["rmin"], q["rmax"])):
+            return "scales=rmin>=rmax"
+        return "scales=valid"
+
+    def binning_reject_class(self, case: Case, parent_obj) -> str:
+        """why the declared verdict of the binning part is 'reject'"""
+        if case.op == "create":
+            q = dict(zip(PFIELDS, case.p0))
+        else:
+            d = dict(case.mods[-1])
+            gen = parent_obj is not None and parent_obj[5] != "custom"
+            q = dict(zmin=d.get("zmin", parent_obj[7] if gen else NONE), zmax=d.get("zmax", parent_obj[8] if gen else NONE),
+                     method=d.get("method", parent_obj[5] if parent_obj else "linear"),
+                     edges=d.get("edges", () if gen else (parent_obj[9] if parent_obj else ())))
+            if d.get("edges"):
+                q.update(zmin=NONE, zmax=NONE)
+        hasz = q["zmin"] != NONE and q["zmax"] != NONE
+        if not hasz and not q["edges"]:
+            return "binning=neither_edges_nor_zmin_zmax"
+        if hasz and q["method"] not in ("linear", "comoving", "logspace", "custom"):
+            return "binning=unknown_method"
+        if hasz and q["zmin"] >= q["zmax"]:
+            return "binning=zmin>=zmax"
+        if q["edges"] and any(a >= b for a, b in zip(q["edges"], q["edges"][1:])):
+            return "binning=edges_not_increasing"
+        return "binning=invalid"
 
     def cosmology_class(self, case: Case) -> str:
         if case.op == "create":
@@ -540,11 +592,11 @@ class Replayer:
         d = dict(case.mods[-1])
         return f"cosmology={cosmo_class(d['cosmo']) if 'cosmo' in d else 'kept'}"
 
-    def class_for(self, group: str, case: Case, parent_obj, to_obj=None) -> str:
+    def class_for(self, group: str, case: Case, parent_obj, to_obj=None, cosmo=True) -> str:
         if group == "scales":
             return self.scales_class(case, parent_obj)
         if group == "binning":
-            return self.binning_class(case, parent_obj, to_obj)
+            return self.binning_class(case, parent_obj, to_obj, cosmo)
         if group == "cosmology":
             return self.cosmology_class(case)
         return "any"
@@ -552,7 +604,7 @@ class Replayer:
     @staticmethod
     def first_diff(real: tuple, exp: tuple):
         for name, a, b in zip(OBJ_FIELDS, real, exp):
-            if a != b:
+            if a != b and name != "end_points_inexact":
                 return name
         return None
 
@@ -563,6 +615,39 @@ class Replayer:
         if field in BIN_FIELDS:
             return "binning"
         return "cosmology" if field == "cosmology" else "other"
+
+    # ---- structural keys: class of the SMALLEST modification with the same symptom ----
+    def representative(self, case: Case, sym: str) -> Case:
+        """the sibling history whose last modification sets the fewest of this
+        one's parameters and showed the same symptom (siblings with smaller
+        deltas are replayed first): every instance of one defect is keyed by
+        its minimal trigger."""
+        if case.op != "modify" or not case.mods[-1]:
+            return case
+        last = case.mods[-1]
+        for n in range(len(last)):
+            for sub in itertools.combinations(last, n):
+                k = (case.p0, case.mods[:-1] + (tuple(sub),))
+                if sym in self.symptoms.get(k, ()):
+                    return self.by_key[k]
+        return case
+
+    def report_op(self, case: Case, entry: str, group: str, outcome: str, parent_obj, detail: dict, demanded=True, field=None) -> None:
+        sym = f"{entry}|{outcome}"
+        rep = self.representative(case, sym)
+        if group not in ("scales", "binning", "cosmology") and rep.op == "modify":
+            keys = {k for k, _ in rep.mods[-1]}  # the group the minimal trigger belongs to
+            for g, ks in (("scales", {"rmin", "rmax", "unit", "rw", "res"}), ("binning", {"zmin", "zmax", "nb", "method", "edges", "closed"}), ("cosmology", {"cosmo"})):
+                if keys and keys <= ks:
+                    group = g
+        if outcome == "accepted_invalid" and group == "binning":
+            cls = self.binning_reject_class(rep, parent_obj)
+        else:
+            cls = self.class_for(group, rep, parent_obj, rep.obj or None, field is None or field == "comoving_edges_cosmology")
+        self.symptoms.setdefault(case.key, set()).add(sym)
+        if rep is not case:
+            detail = dict(detail, minimal_trigger=self.repro(rep))
+        (self.ctx.violation if demanded else self.ctx.drift)(f"C15|{entry}|{cls}|{outcome}", detail)
 
     # ---- one path -----------------------------------------------------------
     def repro(self, case: Case, upto=None) -> str:
@@ -587,14 +672,16 @@ class Replayer:
     def replay_tree(self, cases: list[Case]) -> None:
         """cases of one TLC run; parents are replayed before their children and
         every edge of the history tree is executed exactly once."""
-        cases = sorted(cases, key=lambda c: len(c.mods))
+        cases = sorted(cases, key=lambda c: (len(c.mods), len(c.mods[-1]) if c.mods else 0))
+        for c in cases:
+            self.by_key[c.key] = c
         real: dict = {}  # history key -> (real cfg, abstract obj, taint) ; missing = pruned
         for case in cases:
             if case.op == "create":
                 parent = None
             else:
                 pk = (case.p0, case.mods[:-1])
-                if pk not in real or real[pk][0] is None:
+                if pk not in real or real[pk][0] is None or id(real[pk][0]) in self.poisoned:
                     self.stats["skipped_below_divergence"] += 1
                     continue
                 parent = real[pk]
@@ -620,7 +707,8 @@ class Replayer:
             before = w.snapshot(parent_cfg)
             kind, val = call(parent_cfg.modify, **kwargs)
             if w.snapshot(parent_cfg) != before:
-                ctx.violation(f"C15|{entry}|{self.class_for('other', case, parent_obj)}|original_mutated", self.detail(case))
+                self.report_op(case, entry, "other", "original_mutated", parent_obj, self.detail(case))
+                self.poisoned.add(id(parent_cfg))  # this object no longer is what the model thinks: stop using it
         comoving = "comoving" in (case.obj[5] if case.obj else "", parent_obj[5] if parent_obj else "",
                                   dict(zip(PFIELDS, case.p0))["method"] if case.op == "create" else dict(case.mods[-1]).get("method", ""))
         nontrivial = case.op == "modify" or case.verdict != "accept" or dict(zip(PFIELDS, case.p0))["cosmo"] != "omitted"
@@ -656,7 +744,7 @@ class Replayer:
             if real_out == "rejects":
                 return keep_parent
             proj = w.proj_config(val, prefer_gen=case.obj[11], taint=taint)
-            if proj != case.obj:
+            if not same_obj(proj, case.obj):
                 ctx.drift(f"C15|{entry}|open_class|{self.first_diff(proj, case.obj)}_differs_from_model",
                           self.detail(case, real_object=dict(zip(OBJ_FIELDS, proj))))
                 return None
@@ -666,9 +754,8 @@ class Replayer:
 
         if case.verdict == "reject":
             if real_out == "ok":
-                step = self.failing_step_accept(case)
-                ctx.violation(f"C15|{entry}|{self.class_for(step, case, parent_obj)}|accepted_invalid",
-                              self.detail(case, real_object=dict(zip(OBJ_FIELDS, w.proj_config(val)))))
+                self.report_op(case, entry, self.failing_step_accept(case), "accepted_invalid", parent_obj,
+                               self.detail(case, real_object=dict(zip(OBJ_FIELDS, w.proj_config(val)))))
                 return None
             substeps()
             return keep_parent
@@ -676,30 +763,28 @@ class Replayer:
         # verdict accept: must return the declared configuration
         if real_out == "rejects":
             step = self.failing_step(case, parent_cfg, kwargs, val)
-            to_obj = case.obj
-            ctx.violation(f"C15|{entry}|step={step},{self.class_for(step, case, parent_obj, to_obj)}|raises_{type(val).__name__}",
-                          self.detail(case, error=repr(val)[:300], failing_step=step))
+            self.report_op(case, entry, step, f"raises_{type(val).__name__}", parent_obj,
+                           self.detail(case, error=repr(val)[:300], failing_step=step))
             substeps(force=True)
             return None
         proj = w.proj_config(val, prefer_gen=case.obj[11], taint=taint)
         ok = True
-        if proj != case.obj:
+        if not same_obj(proj, case.obj):
             field = self.first_diff(proj, case.obj)
             group = self.group_of(field)
             outcome = f"{field}_differs"
             if field == "comoving_edges_cosmology":
                 outcome = "comoving_edges_of_other_cosmology" if proj[11] != "?" else "edges_not_comoving"
-            ctx.violation(f"C15|{entry}|step={group},{self.class_for(group, case, parent_obj, case.obj)}|{outcome}",
-                          self.detail(case, real_object=dict(zip(OBJ_FIELDS, proj)), edges=val.binning.edges.tolist()))
+            self.report_op(case, entry, group, outcome, parent_obj,
+                           self.detail(case, real_object=dict(zip(OBJ_FIELDS, proj)), edges=val.binning.edges.tolist()), field=field)
             substeps(force=True)
             ok = False
         probs, end_err = w.edge_problems(val.binning, taint)
         meth = str(val.binning.method)
         for pr in probs:
-            ctx.violation(f"C15|{entry}|step=binning,{self.class_for('binning', case, parent_obj, case.obj)}|{pr}",
-                          self.detail(case, edges=val.binning.edges.tolist()))
+            self.report_op(case, entry, "binning", pr, parent_obj, self.detail(case, edges=val.binning.edges.tolist()), field=pr)
             ok = False
-        if end_err > 0 and ok:
+        if ok and proj[I_FUZZ] > min(case.obj[I_FUZZ], 1):
             # 'spanning exactly [zmin, zmax]': the generated end points are not the requested floats
             src = tsrc or meth
             self.stats["end_point_error"][src] = max(self.stats["end_point_error"].get(src, 0.0), float(end_err))
@@ -718,8 +803,8 @@ class Replayer:
 
     # ---- which code step is responsible --------------------------------------
     def failing_step(self, case: Case, parent_cfg, kwargs, exc) -> str:
-        """re-run the real sub-calls the way the real code makes them, in its
-        order; the first one raising the same exception type is the failing step."""
+        """re-run the real sub-calls the way the real code makes them; the first
+        one raising the same exception type is the failing step."""
         w = self.w
         et = type(exc)
         sk = {k: kwargs[k] for k in ("rmin", "rmax", "unit", "rweight", "resolution") if k in kwargs}
@@ -727,27 +812,18 @@ class Replayer:
         if case.op == "create":
             craw = kwargs.get("cosmology", "Planck15")
             k, c = call(w.parse_cosmology, craw)
-            if k == "raises":
-                return "cosmology" if type(c) is et else "whole"
-            k, r = call(w.ScalesConfig.create, **sk)
-            if k == "raises":
-                return "scales" if type(r) is et else "whole"
-            k, r = call(w.BinningConfig.create, **bk, cosmology=c)
-            if k == "raises":
-                return "binning" if type(r) is et else "whole"
-            return "construct"
-        k, r = call(parent_cfg.scales.modify, **sk)
-        if k == "raises":
-            return "scales" if type(r) is et else "whole"
-        extra = {"cosmology": kwargs["cosmology"]} if "cosmology" in kwargs else {}
-        k, r = call(parent_cfg.binning.modify, **bk, **extra)
-        if k == "raises":
-            return "binning" if type(r) is et else "whole"
-        if "cosmology" in kwargs:
-            k, r = call(w.parse_cosmology, kwargs["cosmology"])
-            if k == "raises":
-                return "cosmology" if type(r) is et else "whole"
-        return "construct"
+            steps = [("cosmology", (k, c)), ("scales", call(w.ScalesConfig.create, **sk))]
+            if k == "ok":
+                steps.append(("binning", call(w.BinningConfig.create, **bk, cosmology=c)))
+        else:
+            extra = {"cosmology": kwargs["cosmology"]} if "cosmology" in kwargs else {}
+            steps = [("scales", call(parent_cfg.scales.modify, **sk)), ("binning", call(parent_cfg.binning.modify, **bk, **extra))]
+            if extra:
+                steps.append(("cosmology", call(w.parse_cosmology, kwargs["cosmology"])))
+        for name, (k, r) in steps:
+            if k == "raises" and type(r) is et:
+                return name
+        return "whole"
 
     def failing_step_accept(self, case: Case) -> str:
         """which declared component made the verdict 'reject' (for the class of
@@ -763,7 +839,6 @@ class Replayer:
         sk = {k: kwargs[k] for k in ("rmin", "rmax", "unit", "rweight", "resolution") if k in kwargs}
         bk = {k: kwargs[k] for k in ("zmin", "zmax", "num_bins", "method", "edges", "closed") if k in kwargs}
         demanded = case.verdict != "open"
-        report = ctx.violation if demanded else ctx.drift
 
         def compare(entry, group, model, kind, val, projector):
             st, err, mv = model[0], model[1], model[2]
@@ -773,18 +848,23 @@ class Replayer:
             if (kind == "ok") != (st == "ok"):
                 if kind == "raises" and case.verdict == "accept":
                     # a rejection is only wrong if the whole operation was to be accepted
-                    ctx.violation(f"C15|{entry}|{self.class_for(group, case, parent_obj, case.obj or None)}|raises_{type(val).__name__}",
-                                  self.detail(case, error=repr(val)[:300], model=dict(st=st, err=err)))
+                    self.report_op(case, entry, group, f"raises_{type(val).__name__}", parent_obj,
+                                   self.detail(case, error=repr(val)[:300], model=dict(st=st, err=err)))
                 elif kind == "ok" and case.verdict == "reject" and case.step == group:
-                    ctx.violation(f"C15|{entry}|{self.class_for(group, case, parent_obj)}|accepted_invalid", self.detail(case))
+                    self.report_op(case, entry, group, "accepted_invalid", parent_obj, self.detail(case))
                 else:
                     ctx.drift(f"C15|{entry}|substep_outcome_differs_from_model", self.detail(case, model=dict(st=st, err=err), real=kind))
                 return
             if kind == "ok":
                 proj = projector(val)
-                if proj != mv:
-                    report(f"C15|{entry}|{self.class_for(group, case, parent_obj, case.obj or None)}|result_differs",
-                           self.detail(case, real=repr(proj), model=repr(mv)))
+                if not (same_binning(proj, mv) if group == "binning" else proj == mv):
+                    names = {"binning": OBJ_FIELDS[5:12], "scales": OBJ_FIELDS[:5]}.get(group)
+                    field = next((n for n, a, b in zip(names, proj, mv) if a != b), "result") if names else "result"
+                    outcome = f"{field}_differs"
+                    if field == "comoving_edges_cosmology":
+                        outcome = "comoving_edges_of_other_cosmology" if proj[6] != "?" else "edges_not_comoving"
+                    self.report_op(case, entry, group, outcome, parent_obj, self.detail(case, real=repr(proj), model=repr(mv)),
+                                   demanded=demanded, field=field)
             elif type(val).__name__ != err:
                 ctx.drift(f"C15|{entry}|exception_type_{type(val).__name__}_model_{err}", self.detail(case))
 
@@ -844,7 +924,7 @@ class Replayer:
             return
         taint = self.taint
         tproj = w.proj_config(twin, prefer_gen=obj[11], taint=taint)
-        if tproj != obj:
+        if not same_obj(tproj, obj):
             report(f"C15|Configuration.create|merged_parameters,binning={obj[5]}|{self.first_diff(tproj, obj)}_differs",
                    self.detail(case, real_object=dict(zip(OBJ_FIELDS, tproj))))
             return
@@ -872,7 +952,7 @@ class Replayer:
         if parent_cfg is not None and eqprev != "-":
             k, r = call(lambda: cfg == parent_cfg)
             pproj = w.proj_config(parent_cfg, prefer_gen=obj[11], taint=taint)
-            cls = "equal_parameters" if pproj == obj else "other_parameters"
+            cls = "equal_parameters" if same_obj(pproj, obj) else "other_parameters"
             if k == "raises":
                 report(f"C15|Configuration.__eq__|{cls}|raises_{type(r).__name__}", self.detail(case, error=repr(r)[:200], compared_with="the configuration it was modified from"))
             elif (r is True) != (eqprev == "true"):
@@ -887,7 +967,7 @@ class Replayer:
         k, dct = call(cfg.to_dict)
         if (k == "ok") != (todict == "ok"):
             if k == "raises" and todict == "ok":
-                report(f"C15|Configuration.to_dict|cosmology={cosmo_class(obj[12])}|raises_{type(dct).__name__}", self.detail(case, error=repr(dct)[:200]))
+                report(f"C15|Configuration.to_dict|cosmology={cosmo_class(obj[I_COSMO])}|raises_{type(dct).__name__}", self.detail(case, error=repr(dct)[:200]))
             else:
                 ctx.drift("C15|Configuration.to_dict|outcome_differs_from_model", self.detail(case))
             return
@@ -903,15 +983,19 @@ class Replayer:
                 report(f"C15|BinningConfig.from_dict|binning={obj[5]}|raises_{type(rb).__name__}", self.detail(case, error=repr(rb)[:200], the_dict=dct["binning"]))
         else:
             bproj = w.proj_config(back, prefer_gen=obj[11], taint=taint)
-            if bproj != obj:
-                report(f"C15|Configuration.from_dict|binning={obj[5]}|{self.first_diff(bproj, obj)}_differs",
+            if not same_obj(bproj, obj):
+                fld = self.first_diff(bproj, obj)
+                report(f"C15|Configuration.from_dict|{'binning=' + obj[5] if fld in BIN_FIELDS else 'any'}|{fld}_differs",
                        self.detail(case, real_object=dict(zip(OBJ_FIELDS, bproj)), the_dict=dct))
             ks, rs = call(w.ScalesConfig.from_dict, copy.deepcopy(dct["scales"]))
-            if ks == "raises" or w.proj_scales(rs) != obj[:5]:
-                report(f"C15|ScalesConfig.from_dict|unit={unit}|{'raises_' + type(rs).__name__ if ks == 'raises' else 'result_differs'}", self.detail(case))
+            if ks == "raises":
+                report(f"C15|ScalesConfig.from_dict|any|raises_{type(rs).__name__}", self.detail(case))
+            elif w.proj_scales(rs) != obj[:5]:
+                fld = next(n for n, a, b in zip(OBJ_FIELDS, w.proj_scales(rs), obj) if a != b)
+                report(f"C15|ScalesConfig.from_dict|any|{fld}_differs", self.detail(case))
         if self.tmpdir is not None and (not self.quick or hash(case.key) % 16 == 0):
             self.stats["files"] += 1
-            path = self.tmpdir / "config.yml"
+            path = self.tmpdir / f"config_{os.getpid()}.yml"
             k, _ = call(cfg.to_file, path)
             if k == "ok":
                 k, back = call(w.Configuration.from_file, path)
@@ -919,8 +1003,9 @@ class Replayer:
                 report(f"C15|Configuration.from_file|binning={obj[5]}|raises_{type(back if k == 'raises' else _).__name__}", self.detail(case))
             else:
                 bproj = w.proj_config(back, prefer_gen=obj[11], taint=taint)
-                if bproj != obj:
-                    report(f"C15|Configuration.from_file|binning={obj[5]}|{self.first_diff(bproj, obj)}_differs", self.detail(case))
+                if not same_obj(bproj, obj):
+                    fld = self.first_diff(bproj, obj)
+                    report(f"C15|Configuration.from_file|{'binning=' + obj[5] if fld in BIN_FIELDS else 'any'}|{fld}_differs", self.detail(case))
 
     tmpdir = None
     taint = 0.0
@@ -947,7 +1032,7 @@ def compact_obj(o: dict) -> tuple:
         return ()
     s, b = o["scales"], o["binning"]
     return (_tup(s["rmin"]), _tup(s["rmax"]), s["unit"], s["rw"], s["res"], b["method"], b["nb"], b["zmin"], b["zmax"],
-            _tup(b["edges"]), b["closed"], b["gen"], o["cosmo"], o["workers"])
+            _tup(b["edges"]), b["closed"], b["gen"], min(b["fuzz"], 1), o["cosmo"], o["workers"])
 
 
 def replay_counterexample(world: World, state: dict, aspect: str) -> dict:
@@ -987,11 +1072,24 @@ def replay_counterexample(world: World, state: dict, aspect: str) -> dict:
         k, dct = call(cfg.to_dict)
         if k == "ok":
             k, back = call(world.Configuration.from_dict, dct)
-            real["rt"] = "raises" if k == "raises" else ("same" if world.proj_config(back, prefer_gen=real["obj"][11]) == real["obj"] else "differs")
+            if k == "raises":
+                real["rt"] = "raises"
+            else:  # "same" = bit-identical edges (the model's fuzz counter distinguishes regenerated inexact edges)
+                same = world.proj_config(back, prefer_gen=real["obj"][11]) == real["obj"] and np.array_equal(back.binning.edges, cfg.binning.edges)
+                real["rt"] = "same" if same else "differs"
     else:
         real["obj"] = world.proj_config(prev, prefer_gen="-") if prev is not None else ()
-    if aspect == "outcome":
-        present = real["out"] == model["out"] and (real["err"] == model["err"] if real["out"] == "rejects" else real.get("obj") == model["obj"])
+    if aspect == "binning_step":  # the top level call is masked by another defect: bind the step itself
+        kw = world.create_kwargs(p0, v)
+        bk = {k: kw[k] for k in ("zmin", "zmax", "num_bins", "method", "edges", "closed")}
+        k, r = call(world.BinningConfig.create, **bk, cosmology=world.cosmo[last["carg"]])
+        model["binning_step"] = (last["rb"]["st"], last["rb"]["err"])
+        real["binning_step"] = ("ok", "-") if k == "ok" else ("raises", type(r).__name__)
+        present = model["binning_step"] == real["binning_step"]
+    elif aspect == "outcome":
+        present = real["out"] == model["out"] and (real["err"] == model["err"] if real["out"] == "rejects" else same_obj(real.get("obj", ()), model["obj"]))
+    elif aspect == "end_points":
+        present = real["out"] == model["out"] == "ok" and real["obj"][I_FUZZ] == model["obj"][I_FUZZ] == 1
     else:
         present = real["out"] == model["out"] == "ok" and real.get(aspect, "-") == model[aspect]
     return dict(history=hist, model=model, real=real, present_in_code=bool(present))
@@ -1022,16 +1120,19 @@ def run(ctx: Ctx) -> None:
         return
 
     # ---- A. TLC: ideal design on all slices (concurrently), deviations, liveness ----
+    t_start = time.time()
     sls = slices(quick)
     dsl = deviation_slice()
     jobs = {}
-    with concurrent.futures.ThreadPoolExecutor(max_workers=4) as ex:
+    with concurrent.futures.ThreadPoolExecutor(max_workers=6) as ex:
         for sl in sls:
             jobs[("ideal", sl["name"])] = ex.submit(run_slice, sl)
         for dev, (_, _, dp, dd) in DEVIATIONS.items():
             dev_sl = make_slice("dev-" + dev, dp, dd, maxmods=1 if dd else 0, maxdelta=1 if dd else 0, workers=1)
+            # (the ideal design on these domains is covered by the run on their union, `dsl`)
+            for k, vals in list(dp.items()) + list(dd.items()):
+                assert set(vals) <= set(dsl["P"].get(k, []) + dsl["D"].get(k, [])), (dev, k)
             jobs[("dev", dev)] = ex.submit(run_slice, dev_sl, (dev,), None, False, False)
-            jobs[("devideal", dev)] = ex.submit(run_slice, dev_sl, (), None, False, False)
         jobs[("live", "")] = ex.submit(run_slice, dsl, (), None, False, True, True)
         results = {k: f.result() for k, f in jobs.items()}
 
@@ -1043,9 +1144,6 @@ def run(ctx: Ctx) -> None:
 
     devinfo = {}
     for dev, (inv, aspect, _, _) in DEVIATIONS.items():
-        res = results[("devideal", dev)]
-        ctx.add_tlc(f"Config ideal on the domain of deviation {dev}", res)
-        ctx.require(res.ok, f"ideal design fails on the domain of deviation {dev}: {res.error_kind} {res.error_name}")
         res = results[("dev", dev)]
         ctx.add_tlc(f"Config deviation {dev}", res)
         ctx.require(not res.ok and res.error_kind == "invariant" and res.error_name == inv,
@@ -1058,79 +1156,160 @@ def run(ctx: Ctx) -> None:
     ctx.extra["deviations"] = devinfo
 
     # ---- B. replay of every TLC history on the real library ----
-    rep = Replayer(ctx, world, quick)
     per_slice = {}
     all_cases = {}
+    taken: dict = {}
+    groups = []  # (slice name, [cases of one history tree])
+    t_parse = time.time()
+    for sl in sls:
+        res = results[("ideal", sl["name"])]
+        ctx.add_tlc(f"Config ideal, slice {sl['name']}", res, maxmods=sl["maxmods"], maxdelta=sl["maxdelta"])
+        ctx.require(res.ok, f"Config ideal design violated in TLC on slice {sl['name']}: {res.error_kind} {res.error_name}")
+        for act in ACTIONS:  # every action must be exercised by the slices together, each slice must create and finish
+            taken[act] = taken.get(act, 0) + res.coverage.get(act, (0, 0))[1]
+        for act in ["SomeCreate", "CreateScales"] + (["SomeModify", "ModifyScales"] if sl["maxmods"] else []):
+            ctx.require(res.coverage.get(act, (0, 0))[1] > 0, f"slice {sl['name']}: action {act} never taken (vacuous)")
+        cases = [Case(t) for t in parse_cases(res.out)]
+        ctx.require(len(cases) > 0, f"slice {sl['name']}: TLC printed no case")
+        # fast parser self-check against the reference parser on a sample
+        head = case_texts(res.out[:200_000])[:8]
+        ctx.require(len(head) >= 1 and [tlaval.parse_value(t) for t in head] == [c for c in parse_cases(res.out[:200_000])[:len(head)]],
+                    f"slice {sl['name']}: fast case parser disagrees with harness.tlaval")
+        per_slice[sl["name"]] = dict(tlc_cases=len(cases), replayed=0,
+                                     verdicts={v: sum(1 for c in cases if c.verdict == v) for v in ("accept", "reject", "open")})
+        trees: dict = {}
+        for c in cases:
+            all_cases[c.key] = c
+            trees.setdefault(c.p0, []).append(c)
+        groups += [(sl["name"], t) for t in trees.values()]
+        c = cases[rng.randrange(len(cases))]
+        ctx.sample(dict(slice=sl["name"], history=Replayer(ctx, world, quick).repro(c), verdict=c.verdict, expected_outcome=c.out,
+                        expected_object=dict(zip(OBJ_FIELDS, c.obj)) if c.obj else None))
+        res.out = ""  # free the text
+    for act in ACTIONS:
+        ctx.require(taken.get(act, 0) > 0, f"action {act} never taken in any slice (vacuous)")
+    t_replay = time.time()
     with scratch("c15_") as tmp:
-        rep.tmpdir = tmp
-        for sl in sls:
-            res = results[("ideal", sl["name"])]
-            ctx.add_tlc(f"Config ideal, slice {sl['name']}", res, maxmods=sl["maxmods"], maxdelta=sl["maxdelta"])
-            ctx.require(res.ok, f"Config ideal design violated in TLC on slice {sl['name']}: {res.error_kind} {res.error_name}")
-            need = ACTIONS if sl["maxmods"] else [a for a in ACTIONS if "Modify" not in a]
-            for act in need:
-                ctx.require(res.coverage.get(act, (0, 0))[1] > 0, f"slice {sl['name']}: action {act} never taken (vacuous)")
-            cases = [Case(t) for t in parse_cases(res.out)]
-            ctx.require(len(cases) > 0, f"slice {sl['name']}: TLC printed no case")
-            # fast parser self-check against the reference parser on a sample
-            starts = [m.start() for m in _CASE_START.finditer(res.out)][:9]
-            head = res.out[: starts[-1]] if len(starts) == 9 else res.out
-            ref = [("case",) + tuple(x) for x in tlc.parse_printed(head, "case")]
-            ctx.require(ref == parse_cases(head) and len(ref) >= 1, f"slice {sl['name']}: fast case parser disagrees with harness.tlaval")
-            before = rep.stats["cases"]
-            rep.replay_tree(cases)
-            per_slice[sl["name"]] = dict(tlc_cases=len(cases), replayed=rep.stats["cases"] - before,
-                                         verdicts={v: sum(1 for c in cases if c.verdict == v) for v in ("accept", "reject", "open")})
-            for c in cases:
-                all_cases[c.key] = c
-            if cases:
-                c = cases[rng.randrange(len(cases))]
-                ctx.sample(dict(slice=sl["name"], history=rep.repro(c), verdict=c.verdict, expected_outcome=c.out,
-                                expected_object=dict(zip(OBJ_FIELDS, c.obj)) if c.obj else None))
-        binding_demo(ctx, world, all_cases, rep.passed, tmp)
+        nproc = 4 if quick else 8
+        merged = replay_parallel(ctx, world, groups, tmp, nproc)
+        for name, n in merged["per_slice"].items():
+            per_slice[name]["replayed"] += n
+        binding_demo(ctx, world, all_cases, merged["passed"], tmp)
+    stats = merged["stats"]
     ctx.extra["slices"] = per_slice
-    ctx.extra["replay"] = rep.stats
+    ctx.extra["replay"] = stats
+    ctx.extra["timing_s"] = dict(tlc=round(t_parse - t_start, 1), parse=round(t_replay - t_parse, 1), replay=round(time.time() - t_replay, 1),
+                                 replay_processes=nproc)
     ctx.exhaustive = True
-    ctx.require(rep.stats["accept"] > 0 and rep.stats["reject"] > 0 and rep.stats["comoving"] > 0 and rep.stats["angles"] > 0,
+    ctx.require(stats["accept"] > 0 and stats["reject"] > 0 and stats["comoving"] > 0 and stats["angles"] > 0,
                 "replay did not reach accepted, rejected and comoving cases")
+
+
+_SHARED = None  # (tier, seed, quick, world, buckets, tmp): inherited by the forked replay workers
+
+
+def _replay_bucket(i: int) -> dict:
+    tier, seed, quick, world, buckets, tmp = _SHARED
+    ctx = Ctx("C15", tier, seed)
+    rep = Replayer(ctx, world, quick)
+    rep.tmpdir = tmp
+    per_slice: dict = {}
+    for name, cases in buckets[i]:
+        before = rep.stats["cases"]
+        rep.replay_tree(cases)
+        per_slice[name] = per_slice.get(name, 0) + rep.stats["cases"] - before
+    return dict(viol=ctx._violations, drift=ctx._drift, evaluations=ctx.evaluations, nontrivial=[hash(k) for k in ctx.nontrivial],
+                validated=ctx.traces_validated, stats=rep.stats, per_slice=per_slice, passed=[tuple_of(c) for c in rep.passed[:40]])
+
+
+def tuple_of(c: Case) -> tuple:
+    return ("case", c.p0, c.mods, (c.op, c.out, c.err, c.step, c.verdict), c.obj, c.decl, c.rs, c.rb, c.rc, c.angle, c.eq, c.rt)
+
+
+def replay_parallel(ctx: Ctx, world: World, groups: list, tmp, nproc: int) -> dict:
+    """Replay the history trees on `nproc` forked workers (each tree is
+    replayed by exactly one worker) and merge verdicts into ctx."""
+    global _SHARED
+    import multiprocessing
+
+    buckets = [[] for _ in range(nproc)]
+    load = [0] * nproc
+    for name, tree in sorted(groups, key=lambda g: -len(g[1])):
+        i = load.index(min(load))
+        buckets[i].append((name, tree))
+        load[i] += len(tree)
+    _SHARED = (ctx.tier, ctx.seed, ctx.quick, world, buckets, tmp)
+    if nproc == 1:
+        outs = [_replay_bucket(0)]
+    else:
+        with multiprocessing.get_context("fork").Pool(nproc) as pool:
+            outs = pool.map(_replay_bucket, range(nproc))
+    _SHARED = None
+    stats: dict = {}
+    per_slice: dict = {}
+    passed = []
+    for o in outs:
+        for v in o["viol"]:
+            for _ in range(v["count"]):
+                ctx.violation(v["key"], v["detail"])
+        for v in o["drift"]:
+            for _ in range(v["count"]):
+                ctx.drift(v["key"], v["detail"])
+        ctx.evaluations += o["evaluations"]
+        ctx.nontrivial.update(o["nontrivial"])
+        ctx.validated(o["validated"])
+        for k, v in o["stats"].items():
+            if isinstance(v, dict):
+                d = stats.setdefault(k, {})
+                for kk, vv in v.items():
+                    d[kk] = max(d.get(kk, 0.0), vv)
+            else:
+                stats[k] = stats.get(k, 0) + v
+        for k, v in o["per_slice"].items():
+            per_slice[k] = per_slice.get(k, 0) + v
+        passed += [Case(t) for t in o["passed"]]
+    return dict(stats=stats, per_slice=per_slice, passed=passed)
 
 
 def binding_demo(ctx: Ctx, world: World, all_cases: dict, passed: list, tmp) -> None:
     """Binding demonstration: a case whose EXPECTED state is corrupted must be
-    flagged by the comparison with the real library (on a private context)."""
-    good = [c for c in passed if c.op == "create" and c.obj[5] == "comoving" and c.obj[6] > 1]
-    good2 = [c for c in all_cases.values() if c.op == "create" and c.verdict == "reject"]
-    ctx.require(bool(good) and bool(good2), "no case for the binding demonstration")
-    demos = {}
-    for name, case, mutate in (
-        ("num_bins", good[0], lambda o: o[:6] + (o[6] + 1,) + o[7:]),
-        ("comoving_edges_cosmology", good[0], lambda o: o[:11] + ("WMAP9" if o[11] != "WMAP9" else "Planck15",) + o[12:]),
-        ("unit", good[0], lambda o: o[:2] + ("Mpc",) + o[3:]),
-    ):
+    flagged by the comparison with the real library (on a private context).
+    Uses cases the real library passed; if it passes none (a badly broken
+    tree) the demonstration is skipped - the violations are reported anyway."""
+    creates = [c for c in passed if c.op == "create"]
+    comov = [c for c in creates if c.obj[5] == "comoving" and c.obj[6] > 1]
+    rejects = [c for c in all_cases.values() if c.op == "create" and c.verdict == "reject"]
+    if not creates or not rejects:
+        ctx.require(bool(ctx._violations), "no case for the binding demonstration although nothing was reported")
+        ctx.extra["binding_demonstration"] = "skipped: the library under test passed no create case"
+        return
+
+    def flagged(t) -> list:
         private = Ctx("C15", ctx.tier, ctx.seed)
         rp = Replayer(private, world, True)
         rp.tmpdir = tmp
-        t = ("case", case.p0, case.mods, (case.op, case.out, case.err, case.step, case.verdict), mutate(case.obj), case.decl,
-             case.rs, case.rb, case.rc, case.angle, case.eq, case.rt)
         rp.replay_tree([Case(t)])
-        keys = [v["key"] for v in private._violations]
+        return [v["key"] for v in private._violations]
+
+    demos = {}
+    trials = [("num_bins", creates[0], lambda o: o[:6] + (o[6] + 1,) + o[7:]), ("unit", creates[0], lambda o: o[:2] + ("Mpc" if o[2] != "Mpc" else "kpc",) + o[3:]),
+              ("max_workers", creates[0], lambda o: o[:I_WORKERS] + (7,))]
+    if comov:
+        trials.append(("comoving_edges_cosmology", comov[0], lambda o: o[:11] + ("WMAP9" if o[11] != "WMAP9" else "Planck15",) + o[12:]))
+    for name, case, mutate in trials:
+        keys = flagged(tuple_of(case)[:4] + (mutate(case.obj),) + tuple_of(case)[5:])
         demos[name] = keys[:2]
         ctx.require(any(k.endswith("_differs") or "other_cosmology" in k for k in keys),
                     f"binding demonstration failed: corrupted expectation ({name}) was not noticed")
     # a rejected case presented as 'accept' / an accepted one as 'reject'
-    c = good2[0]
-    private = Ctx("C15", ctx.tier, ctx.seed)
-    rp = Replayer(private, world, True)
-    t = ("case", c.p0, c.mods, (c.op, "ok", "-", "done", "accept"), good[0].obj, good[0].decl, c.rs, c.rb, c.rc, good[0].angle, good[0].eq, good[0].rt)
-    rp.replay_tree([Case(t)])
-    ctx.require(any("raises_" in v["key"] for v in private._violations), "binding demonstration failed: wrong verdict not noticed")
-    c = good[0]
-    private = Ctx("C15", ctx.tier, ctx.seed)
-    rp = Replayer(private, world, True)
-    t = ("case", c.p0, c.mods, (c.op, "rejects", "ValueError", "binning", "reject"), (), c.decl, c.rs, c.rb, c.rc, c.angle, c.eq, c.rt)
-    rp.replay_tree([Case(t)])
-    ctx.require(any(v["key"].endswith("accepted_invalid") for v in private._violations),
-                "binding demonstration failed: accepted case presented as reject not noticed")
+    g, c = creates[0], rejects[0]
+    keys = flagged(("case", c.p0, c.mods, (c.op, "ok", "-", "done", "accept"), g.obj, g.decl, c.rs, c.rb, c.rc, g.angle, g.eq, g.rt))
+    ctx.require(any("raises_" in k for k in keys), "binding demonstration failed: wrong verdict not noticed")
+    keys = flagged(("case", g.p0, g.mods, (g.op, "rejects", "ValueError", "binning", "reject"), (), g.decl, g.rs, g.rb, g.rc, g.angle, g.eq, g.rt))
+    ctx.require(any(k.endswith("accepted_invalid") for k in keys), "binding demonstration failed: accepted case presented as reject not noticed")
+    # the untouched case itself must be silent
+    ctx.require(not flagged(tuple_of(g)) or all("__eq__" in k or "from_" in k or "end_points" in k for k in flagged(tuple_of(g))),
+                "binding demonstration failed: an unmodified passed case is flagged")
     ctx.extra["binding_demonstration"] = dict(corrupted_expectations_flagged=demos, wrong_verdicts_flagged=True)
 
 
